@@ -19,6 +19,11 @@ import (
 var c30Tokens = []string{"a", "echo", "nop", "$", "$x", "'", "\"", "\\", " ", "\n", ";", "|", "&", "#", "~", "*", "?",
 	"(", ")", "[", "]", "{", "}", "<", ">", "=", "é", "\xff", "if", "var", "fn", "x:", "-", "0x1"}
 
+// Second family: the special forms whose arguments are highlighted as variables (semantic regions that can span
+// several leaves of the parse tree, e.g. `del [a]`), followed by every short argument string.
+var c30Heads = []string{"del ", "var ", "set ", "tmp ", "with ", "for ", "fn ", "use ", "try { } catch ", "echo ; del "}
+var c30ArgTokens = []string{"a", "b", " ", "[", "]", "{", "}", ",", "=", "1", "$", "x:", "@", "~", "é"}
+
 func c30Text(t ui.Text) string {
 	var sb strings.Builder
 	for _, seg := range t {
@@ -118,6 +123,25 @@ func c30Scenarios() []vshard.Scenario {
 	}
 }
 
+func c30One(c *vk.Ctx, l *vk.Local, cfgs []Config, code, fam string) {
+	for ci, cfg := range cfgs {
+		var text ui.Text
+		var tips []ui.Text
+		if p := vk.Try(func() { text, tips = highlight(code, cfg, func(ui.Text) {}) }); p != "" {
+			c.Violate("highlight-panic:"+vk.PanicSite(p), fmt.Sprintf("highlight(%q) config %d: %s", code, ci, p), code)
+			continue
+		}
+		if got := c30Text(text); got != code {
+			c.Violate(fmt.Sprintf("highlighted-text-differs-from-code:config%d", ci), fmt.Sprintf("highlight(%q) config %d: segments concatenate to %q", code, ci, got), code)
+		}
+		styles := map[string]bool{}
+		for _, seg := range text {
+			styles[fmt.Sprint(seg.Style)] = true
+		}
+		l.Case(fmt.Sprintf("%s%d/%d/%d", fam, ci, len(styles), len(tips)))
+	}
+}
+
 func TestVerifC30(t *testing.T) {
 	cfg := vshard.Config{Delay: true, Bound: 2, MaxPoints: 3000}
 	if os.Getenv("VERIF_TIER") == "thorough" {
@@ -129,7 +153,7 @@ func TestVerifC30(t *testing.T) {
 	}
 	vk.Run(t, "C30", "exploration", func(c *vk.Ctx) {
 		n := vk.Pick(c, 3, 4)
-		c.Rule(fmt.Sprintf("(1) every string of <=%d tokens over a 34-token alphabet highlighted with no configuration, with the real Evaler's Check, and with an instant HasCommand: the segments must concatenate to the code; class = (styles used, number of tips). (2) the Highlighter under the controlled scheduler: an editor thread calling Get for 6 buffer sequences (three of them with cache invalidation and the empty buffer) while the command lookup is slow and the 10 ms timer may fire at any moment, plus an observer thread; every schedule with <=%d departures from the default goroutine; the cache must always hold text equal to its code and Get(c) must return text c", n, cfg.Bound))
+		c.Rule(fmt.Sprintf("(1) every string of <=%d tokens over a 34-token alphabet highlighted with no configuration, with the real Evaler's Check, and with an instant HasCommand: and every special form head (del/var/set/tmp/with/for/fn/use/catch) followed by every string of <=4 (thorough 5) of 15 argument tokens, so that variable and error regions spanning several parse-tree leaves occur: the segments must concatenate to the code; class = (family, styles used, number of tips). (2) the Highlighter under the controlled scheduler: an editor thread calling Get for 6 buffer sequences (three of them with cache invalidation and the empty buffer) while the command lookup is slow and the 10 ms timer may fire at any moment, plus an observer thread; every schedule with <=%d departures from the default goroutine; the cache must always hold text equal to its code and Get(c) must return text c", n, cfg.Bound))
 		c.Assume("pkg/edit/highlight rewritten for the controlled scheduler (time.After becomes a timer that may fire at any moment)")
 		ev := eval.NewEvaler()
 		cfgs := []Config{
@@ -140,25 +164,19 @@ func TestVerifC30(t *testing.T) {
 			}},
 		}
 		c.EnumSeqs(len(c30Tokens), n, func(l *vk.Local, idx []int) {
-			code := vk.Join(c30Tokens, idx)
-			for ci, cfg := range cfgs {
-				var text ui.Text
-				var tips []ui.Text
-				if p := vk.Try(func() { text, tips = highlight(code, cfg, func(ui.Text) {}) }); p != "" {
-					c.Violate("highlight-panic:"+vk.PanicSite(p), fmt.Sprintf("highlight(%q) config %d: %s", code, ci, p), code)
-					continue
-				}
-				if got := c30Text(text); got != code {
-					c.Violate(fmt.Sprintf("highlighted-text-differs-from-code:config%d", ci), fmt.Sprintf("highlight(%q) config %d: segments concatenate to %q", code, ci, got), code)
-				}
-				styles := map[string]bool{}
-				for _, seg := range text {
-					styles[fmt.Sprint(seg.Style)] = true
-				}
-				l.Case(fmt.Sprintf("%d/%d/%d", ci, len(styles), len(tips)))
-			}
+			c30One(c, l, cfgs, vk.Join(c30Tokens, idx), "")
 		})
+		m := vk.Pick(c, 4, 5)
+		c.Set("special_form_family", fmt.Sprintf("%d heads x every string of <=%d of %d argument tokens", len(c30Heads), m, len(c30ArgTokens)))
+		for _, head := range c30Heads {
+			head := head
+			c.EnumSeqs(len(c30ArgTokens), m, func(l *vk.Local, idx []int) {
+				code := head + vk.Join(c30ArgTokens, idx)
+				c30One(c, l, cfgs, code, "form:")
+			})
+		}
 		c.Sample("echo $x | nop")
+		c.Sample("del [a b]")
 		vshard.Run(c, c30Scenarios(), cfg)
 	})
 }
